@@ -207,6 +207,9 @@ class Interp(object):
     if isinstance(s, ast.Expr):
       if isinstance(s.value, ast.Constant):
         return
+      from sa import cfg as _cfg  # pylint: disable=g-import-not-at-top
+      if _cfg.is_log_call(s.value):
+        return  # logging statements have no effect on the decision
       self.eval(s.value, env)
     elif isinstance(s, ast.Return):
       raise _Return(self.eval(s.value, env) if s.value is not None else None)
